@@ -1593,3 +1593,28 @@ def _spec_in_version_grammar(it, self, args, kw):
         import re
         return VBool(re.fullmatch(r"[0-9]+(\.[0-9]+)*(-(alpha|beta|rc)(\.[0-9]+)?)?", s.conc) is not None)
     return VBool(z3.InRe(s.e, version_grammar_re()))
+
+
+@handler("spec.AESGCM_ENC")
+def _spec_aesgcm(it, self, args, kw):
+    s = _s()
+    key, nonce, pt, aad = args
+    t = s.AESGCM_ENC(key.e, nonce.e, pt.e, aad.e)
+    it.assume(z3.Length(t) == z3.Length(pt.e) + 16)
+    return VBytes(t)
+
+
+@handler("spec.KEYS_DIR")
+def _spec_keys_dir(it, self, args, kw):
+    """Directory in which the file-based KMS looks for keys, as a function of the context string (parse_context is assumed)."""
+    ctxv = args[0]
+    F = z3.Function("KEYS_DIR", S, S)
+    if isinstance(ctxv, VNone):
+        return VStr(z3.Const("KEYS_DIR_DEFAULT", S))
+    return VStr(F(ctxv.e))
+
+
+@handler("spec.pathstr")
+def _spec_pathstr(it, self, args, kw):
+    p = args[0]
+    return p.f["s"] if isinstance(p, VLib) and p.kind == "Path" else p
